@@ -302,6 +302,30 @@ fn do_cw<H: HistT>(line: &Value, want: &HWant, rep: &mut Report) {
             viol(rep, "C12", H::NAME, line, "with_const_width", "non-zero counts in a new histogram".into());
         }
     }
+    // ranges that straddle zero almost, but not exactly, symmetrically: an inner edge is tiny
+    // compared with the bin width but is not zero
+    for x in [a.abs().max(1.0), 3.0, 1e-20, 7.7e11] {
+        for delta in [p2(-33), p2(-30), 1e-9, p2(-45)] {
+            for (start, end) in [(-x, x * (1.0 + delta)), (-x * (1.0 + delta), x)] {
+                rep.replays += 1;
+                let h = H::with_const_width(start, end);
+                let r = h.ranges();
+                let scale = start.abs().max(end.abs());
+                rep.evaluations += r.len() as u64;
+                for (i, &e) in r.iter().enumerate() {
+                    // start + i (end - start) / LEN, evaluated with an error of at most 2 ulps of `scale`
+                    let reference = start + (end - start) * (i as f64 / H::LEN as f64);
+                    if (e - reference).abs() > 6.0 * 2.0 * U * scale || (i == 0 && e != start) {
+                        viol(rep, "C12", H::NAME, line, "with_const_width", format!("range ({:e}, {:e}): edge {} = {:e} but start + i*(end-start)/LEN = {:e}", start, end, i, e, reference));
+                        break;
+                    }
+                }
+                if !r.windows(2).all(|w| w[0] <= w[1]) {
+                    viol(rep, "C12", H::NAME, line, "with_const_width", format!("range ({:e}, {:e}): edges not non-decreasing", start, end));
+                }
+            }
+        }
+    }
     // ranges only a few ulps wide ("all finite start < end"): the edges must still be
     // non-decreasing, start exactly first, and every edge within a few ulps of the exact one
     for k in [-40, 0, 3, 60] {
